@@ -39,7 +39,8 @@ def proppatch_body_ordered(instr):
     parts = []
     for it in instr:
         if it[0] == "set":
-            parts.append(f"<D:set><D:prop><{qn(it[1])}>{xesc(it[2])}</{qn(it[1])}></D:prop></D:set>")
+            inner = it[2][1] if isinstance(it[2], (tuple, list)) else xesc(it[2])
+            parts.append(f"<D:set><D:prop><{qn(it[1])}>{inner}</{qn(it[1])}></D:prop></D:set>")
         else:
             parts.append(f"<D:remove><D:prop><{qn(it[1])}/></D:prop></D:remove>")
     return (f'<?xml version="1.0" encoding="utf-8"?><D:propertyupdate {NSDECL}>' + "".join(parts) + "</D:propertyupdate>").encode()
@@ -59,13 +60,16 @@ def proppatch_body(sets=(), removes=()):
     return (f'<?xml version="1.0" encoding="utf-8"?><D:propertyupdate {NSDECL}>' + "".join(parts) + "</D:propertyupdate>").encode()
 
 
-def mkcol_body(root, sets):
+def mkcol_body(root, sets, one_prop=False):
     """root: 'D:mkcol' or 'C:mkcalendar'."""
     parts = []
     for name, val in sets:
         inner = val[1] if isinstance(val, tuple) else xesc(val)
-        parts.append(f"<D:set><D:prop><{qn(name)}>{inner}</{qn(name)}></D:prop></D:set>")
-    return (f'<?xml version="1.0" encoding="utf-8"?><{root} {NSDECL}>' + "".join(parts) + f"</{root}>").encode()
+        parts.append(f"<{qn(name)}>{inner}</{qn(name)}>")
+    if one_prop:
+        # all properties inside one DAV:set/DAV:prop, in the given order
+        return (f'<?xml version="1.0" encoding="utf-8"?><{root} {NSDECL}><D:set><D:prop>' + "".join(parts) + f"</D:prop></D:set></{root}>").encode()
+    return (f'<?xml version="1.0" encoding="utf-8"?><{root} {NSDECL}>' + "".join(f"<D:set><D:prop>{x}</D:prop></D:set>" for x in parts) + f"</{root}>").encode()
 
 
 def multiget_body(kind, hrefs, props=("{DAV:}getetag",), data=True):
